@@ -221,3 +221,10 @@ package types
 //@ func (uid Uid) UserId() (s string)
 //@   inline
 //@   ensures [assumed] s == userIdText(uid)
+
+// C13: GetTopicCat panics on names it does not know; callers must have validated the name.
+//@ func GetTopicCat(name string) (cat TopicCat)
+//@   requires [C13] known_prefix: len(name) >= 3 && (hasPrefix(name, "usr") || hasPrefix(name, "p2p") || hasPrefix(name, "grp") || hasPrefix(name, "chn") || hasPrefix(name, "fnd") || hasPrefix(name, "sys"))
+//@   modifies nothing
+//@   nopanic
+//@   safe
